@@ -45,8 +45,10 @@ CONTEXT = [
 ]
 LIB = [
   F('init', props=['C08'], spec="    ensures inited(),  // @C08 lib.init"),
-  F('parse_expression', props=['C01', 'C08']),
-  F('execute', props=['C01', 'C08']),
+  F('parse_expression', props=['C01', 'C08'],
+    spec="    ensures r == (match parser::new_of(expr) { Ok(p) => parser::parse_of(p), Err(e) => Err(e) }),  // @C01,C08 lib.parse_once"),
+  F('execute', props=['C01', 'C07', 'C08'],
+    spec="    ensures r == (match parser::new_of(expr) { Ok(p) => match parser::parse_of(p) { Ok(a) => parser::exec_of(a, ctx@).0, Err(e) => Err(e) }, Err(e) => Err(e) }),  // @C01,C07,C08 lib.evaluate_once"),
   F('register_function', props=['C08']),
   F('register_prefix_op', props=['C08']),
   F('register_postfix_op', props=['C08']),
